@@ -282,11 +282,21 @@ pub fn profile_for(prop: &str, rng: &mut Rng, cfg: BuildCfg) -> Profile {
         }
         _ => {}
     }
+    // every property's swarm has fault-injecting members: "reachable by any history" includes the
+    // states left behind by a caught panic (Clone / Drop panics in clone, clone_from, dynamic
+    // destroy); fault-free members stay the large majority
+    if matches!(prop, "C01" | "C02" | "C03" | "C08" | "C09" | "C12" | "C13" | "C17") && rng.chance(1, 5) {
+        f.clone_panic = true;
+        f.drop_panic = true;
+        f.fork = true;
+        w[OPK_CLONE] += 2;
+        w[OPK_SWITCH] += 3;
+    }
     if f.fork && matches!(prop, "C03" | "C09" | "C13" | "C01") {
         w[OPK_SPAWN] = 2;
     }
     if f.fork {
-        w[OPK_CLONE_FROM] = if matches!(prop, "C13" | "C04") { 4 } else if prop == "C12" { 5 } else { 1 };
+        w[OPK_CLONE_FROM] = if matches!(prop, "C13" | "C04") { 4 } else if prop == "C12" { 5 } else if f.clone_panic { 3 } else { 1 };
     }
     if !f.fork {
         w[OPK_CLONE] = 0;
